@@ -320,10 +320,17 @@ fn spawn_workers(
         let child = cmd.spawn().map_err(|e| format!("spawn worker: {e}"))?;
         children.push(child);
     }
+    // drain every child's pipe concurrently: a worker blocked on a full stdout pipe would look
+    // like a hung unit to its watchdog
+    let readers: Vec<_> = children
+        .into_iter()
+        .map(|child| std::thread::spawn(move || child.wait_with_output()))
+        .collect();
     let mut outs = vec![];
-    for child in children {
-        let out = child
-            .wait_with_output()
+    for reader in readers {
+        let out = reader
+            .join()
+            .map_err(|_| "reader thread panicked".to_string())?
             .map_err(|e| format!("wait worker: {e}"))?;
         let text = String::from_utf8_lossy(&out.stdout);
         if !out.status.success() {
